@@ -259,6 +259,7 @@ def reported_of_snap(snap):
     return tuple(out)
 
 
+NODE_VERSIONS = ["2.0", "1.4", "2.2"]  # what a node presentation in a history can carry
 KINDS = ["node-presentation", "child-presentation", "set", "req", "wake-up", "id-request",
          "set_child_value"]
 
@@ -280,6 +281,7 @@ def history(versions, k, checks):
                                cb_raises=C.sym_flag(w, "callback_raises"))
             ref = project(g.gw)
             ok_types = C.str_rule_types(version)
+            node_types = {v: C.str_rule_types(v) for v in NODE_VERSIONS}
             local_time = env.timegm([env.local], {})
             w.info = {"version": version, "events": []}
             for i in range(k):
@@ -293,12 +295,19 @@ def history(versions, k, checks):
                 del g.events.calls[:]
                 if kind == "set_child_value":
                     w.info["events"].append(["set_child_value", n, c, vt, text])
-                    outcome, expected = w.call(R.ref_set_child_value, version, ref, n, c, vt, text)
+                    outcome, expected = w.call(R.ref_set_child_value, version, ref, n, c, vt, text,
+                                               node_types)
                     try:
                         w.call(g.gw.set_child_value, n, c, vt, text)
                         got = "ok"
                     except Exception:
                         got = "raises"
+                    if outcome == "may-refuse":
+                        # not valid for the node's own (older) version: either refused to the
+                        # caller now, or accepted and then pending like any other desired value
+                        if got == "ok":
+                            w.call(R.ref_apply_desired, ref, n, c, vt, text)
+                        outcome = got
                     try:
                         C.drain(w, g)
                     except Exception as exc:
@@ -307,7 +316,7 @@ def history(versions, k, checks):
                     rule = R.ZERO
                 else:
                     if kind == "node-presentation":
-                        fields, payload = [n, 255, 0, 0, 17], w.pick(["2.0", "1.4", "2.2"], f"e{i}.ver")
+                        fields, payload = [n, 255, 0, 0, 17], w.pick(NODE_VERSIONS, f"e{i}.ver")
                     elif kind == "child-presentation":
                         fields, payload = [n, c, 0, 0, w.fresh_int(f"e{i}.ptype", 0, 25)], text
                     elif kind == "set":
